@@ -264,7 +264,9 @@ func (r *replica) observer() ro.Observer[any] {
 				nwin++
 				j := nwin
 				recv("N", fmt.Sprint(1000+j), ctx)
-				w.SubscribeWithContext(ctx, ro.NewObserverWithContext(
+				// the window / group is subscribed with a context of its own (subscription marker only): what it delivers must carry the
+				// context of the source notification, not the context of whoever subscribed it (C09: stored values keep their context)
+				w.SubscribeWithContext(context.WithValue(context.Background(), rec.KeySub, true), ro.NewObserverWithContext(
 					func(ctx context.Context, x any) { recv("I", fmt.Sprint(100*j+x.(int)), ctx) },
 					func(ctx context.Context, err error) { recv("IE", fmt.Sprint(j), ctx) },
 					func(ctx context.Context) { recv("IC", fmt.Sprint(j), ctx) },
